@@ -93,3 +93,48 @@ def run_tasks(fn, args, workers=None, timeout=180.0, on_result=None, deadline=No
                 if on_result is not None:
                     on_result(idx, results[idx])
     return results
+
+
+def run_isolated(fn, arg, timeout=300.0):
+    """Run fn(arg) in a freshly forked child of the *current* process and return its result
+    (used by machines whose cases must not share process state). Raises on failure."""
+    r, w = os.pipe()
+    pid = os.fork()
+    if pid == 0:
+        try:
+            os.close(r)
+            try:
+                res = ("ok", fn(arg))
+            except BaseException as e:  # noqa
+                res = ("error", {"type": type(e).__name__, "msg": str(e)[:1000], "tb": traceback.format_exc()[-2000:]})
+            data = pickle.dumps(res, protocol=4)
+            with os.fdopen(w, "wb") as f:
+                f.write(data)
+        finally:
+            os._exit(0)
+    os.close(w)
+    chunks = []
+    t0 = time.time()
+    import select
+    with os.fdopen(r, "rb") as f:
+        while True:
+            rl, _, _ = select.select([f], [], [], 1.0)
+            if rl:
+                b = f.read1(1 << 20) if hasattr(f, "read1") else f.read()
+                if not b:
+                    break
+                chunks.append(b)
+            elif time.time() - t0 > timeout:
+                try:
+                    os.kill(pid, signal.SIGKILL)
+                except ProcessLookupError:
+                    pass
+                os.waitpid(pid, 0)
+                raise TimeoutError("isolated task timed out")
+    os.waitpid(pid, 0)
+    if not chunks:
+        raise RuntimeError("isolated task died")
+    st, payload = pickle.loads(b"".join(chunks))
+    if st != "ok":
+        raise RuntimeError(f"isolated task failed: {payload}")
+    return payload
